@@ -451,6 +451,7 @@ func outLast() any                               { return nil }
 //@ ensures [C15] level-cut: level > last ==> r0 == statusNotFound && r1 == nil && ncalls(exec.executeItemOptUnwrapTarget) == 0 && ncalls(exec.executeAnyItem) == 0
 //@ ensures [C15] visited-within-the-bounds: level <= last && len(value) > 0 && node != nil && level >= first ==> ncalls(exec.executeItemOptUnwrapTarget) >= 1
 //@ ensures [C01] collect-cannot-fail: node == nil && found != nil ==> r0 != statusFailed && r1 == nil
+//@ ensures [C15 C06] existence-is-an-item-within-the-bounds: node == nil && found == nil && r0 == statusOK && r1 == nil && ncalls(exec.executeAnyItem) == 0 ==> ncalls(collection) >= 1 && (level >= first || (first == 4294967295 && last == 4294967295 && callret[[]any](collection, 0) == nil))
 
 //@ func (*Executor).execAnyNode
 //@ props C15 C07
